@@ -8,7 +8,7 @@ TEXT = {
     "C09": {
         "level": "C09_apply_total: under the reachable-state assumptions ApplyPre, applying ANY batch of arbitrary transactions returns a state or a rejection, never a crash (every panic / overflow / unwrap site of the code is a `crash` outcome of the model; all four crashing phases are covered); C09_load_total, C09_stake_info_total, C09_scripts_total hold unconditionally; C09_seal_total and C09_seal_ok(_priced): under SealTotalPre (which since the fix for F24 no longer assumes that a builtin pool is not drained by the block's withdrawals: a drained one is re-created before its price is read — C09_drained_ergsym_seals at the very state that used to crash) sealing with any action never crashes and never rejects, and leaves every builtin pool priced; C09_swap/deposit/withdraw/action/swaps_total; machine-checked witnesses show each assumption is needed (C09_swap_needs_u128, C09_doscmint_*_crash, C09_reward_overflow_witness). Termination is by construction plus C11. The real code is run on hostile inputs (arbitrary bytes in data/covenants/signatures, zero and maximal values, 254-256 outputs, garbage proofs and stake documents, every delta) under catch_unwind; a panic is an output the model must match.",
         "design_ref": "DESIGN.md §4 C09",
-        "note": NOTE_COMMON + " Repaired by fix: commits: F3, F3b, F16, F7, F10 (assert), F18, withdraw guard. Also repaired: F13, F19, F2, F21, F22, F23, F24. Open known findings: F9, F17.",
+        "note": NOTE_COMMON + " Repaired by fix: commits: F3, F3b, F16, F7, F10 (assert), F18, withdraw guard. Also repaired: F9, F13, F19, F2, F21, F22, F23, F24. Open known finding: F17 (native stack overflow when a deeply nested value is dropped).",
         "technique": "Lean 4 totality theorems over an explicit crash outcome + hostile-input differential execution",
     },
     "C10": {
